@@ -6,8 +6,10 @@ C09: DAG acyclic + same well-founded value of every query/evidence node as the c
      model per allowed atom assignment and it agrees with the DAG; AD constraints = exactly-one clauses; weights kept.
 C10: circuit decomposable, deterministic, smooth, same models as the CNF; labels point to the same literals."""
 import json
+import random
 
-from .. import pl, progs, semcheck, tlc
+from .. import mc, pl, progs, semcheck, tlc
+from ..tlc import MachineryError
 from . import common
 
 C09_KEYS = ["dagAcyclic", "dagMeaning", "cnfConstraints", "cnfCompletion"]
@@ -99,7 +101,11 @@ def run_both(ctx, which):
         c = cases[0]
         ctx.sample({"program": progs.render(P[c["id"]]), "src": c["src"], "dag": c["dag"], "cnf": c["cnf"],
                     "nnf": c["nnf"][:12], "names": c["names"], "verdict": J[c["id"]]})
+    mcov = {}
+    if which == "C09":
+        model_and_replay(ctx, mcov)
     ctx.write_evidence("translation_validation", {
+        "break_cycles_model": mcov,
         "programs": len(cases), "disagreements_checked": len(cases) * len(keys),
         "evaluations": ctx.evaluations,
         "distinct_nontrivial": ncyc if which == "C09" else sum(1 for c in cases if len(c["nnf"]) > 3),
@@ -111,6 +117,120 @@ def run_both(ctx, which):
                     "weights are compared for equality in the harness (floats cannot be sent to TLC)"])
 
 
+# ------------------------------------------------------------------------------------------------------------------
+# Layer B: BreakCycles.tla (model of cycles.py) - model checking, spec -> code replay, code -> spec validation
+
+FK = 1000000
+
+
+def _strip(nodes):
+    return [{"t": n["t"], "ch": list(n["ch"]), "id": n["id"]} for n in nodes]
+
+
+def _reach(g, k):
+    seen, todo = set(), [abs(c) for c in g[k - 1]["ch"]]
+    while todo:
+        x = todo.pop()
+        if x in seen or x in (0, FK):
+            continue
+        seen.add(x)
+        todo += [abs(c) for c in g[x - 1]["ch"]]
+    return seen
+
+
+def random_graph(rng):
+    """cyclic signed AND/OR graph over <= 3 atoms without a cycle through negation (rejection sampling)"""
+    while True:
+        na = rng.randint(1, 3)
+        nc = rng.randint(2, 6)
+        g = [{"t": "atom", "ch": [], "id": "abc"[i]} for i in range(na)]
+        comp = list(range(na + 1, na + nc + 1))
+        for k in comp:
+            ch = []
+            for _ in range(rng.choice([1, 2, 2, 3])):
+                if rng.random() < 0.4:
+                    c = rng.randint(1, na)
+                    ch.append(c if rng.random() < 0.7 else -c)
+                else:
+                    c = rng.choice(comp)
+                    ch.append(c if rng.random() < 0.8 else -c)
+            g.append({"t": rng.choice(["conj", "disj", "disj"]), "ch": ch, "id": ""})
+        ok = any(k in _reach(g, k) for k in comp)
+        for k in comp:
+            for c in g[k - 1]["ch"]:
+                if c < 0 and -c > na and (-c == k or k in _reach(g, -c)):
+                    ok = False
+        if ok:
+            nq = rng.randint(1, 4)
+            qs = [{"key": rng.choice(comp) * (1 if rng.random() < 0.75 else -1), "phase": 1} for _ in range(nq)]
+            for q in qs[rng.randint(1, nq):]:
+                q["phase"] = 2
+            return g, qs
+
+
+def model_and_replay(ctx, cov):
+    runs = [("BreakCyclesMC", "BreakCycles_small.cfg", True), ("BreakCyclesMC", "BreakCycles_nocb.cfg", False)]
+    if ctx.tier == "thorough":
+        runs += [("BreakCyclesMC", "BreakCycles_big.cfg", True), ("BreakCyclesMC", "BreakCycles_big1.cfg", True),
+                 ("BreakCyclesMC", "BreakCycles_nocn.cfg", True)]
+    R = mc.check_cfgs(runs, nproc=ctx.nproc, timeout=ctx.pick(1500, 14000), parallel=2)
+    ok_runs = [cfg for _, cfg, e in runs if e]
+    cov["model_states"] = sum(R[c]["states"] for c in ok_runs)
+    cov["model_configs"] = {c: {"states": r["states"], "depth": r["depth"]} for c, r in R.items()}
+    cov["expected_counterexample_found"] = "BreakCycles_nocb.cfg (memo entries reused although they broke a cycle that is not on the current path)"
+    H = mc.exported(R["BreakCycles_small.cfg"]["out"])
+    if not H:
+        raise MachineryError("no behaviours exported by BreakCycles_small.cfg")
+    cases = [{"id": i, "src": _strip(h["src"]), "queries": h["queries"], "model": h} for i, h in enumerate(H)]
+    nexp = len(cases)
+    rng = random.Random(ctx.seed + 90909)
+    for _ in range(ctx.pick(1500, 20000)):
+        g, qs = random_graph(rng)
+        cases.append({"id": len(cases), "src": g, "queries": qs})
+    chunk = 500
+    res = pl.run_jobs([("breakcycles_replay", {"cases": [{k: c[k] for k in ("id", "src", "queries")} for c in cases[i:i + chunk]]})
+                       for i in range(0, len(cases), chunk)], nproc=ctx.nproc, timeout=600, chunksize=1)
+    judge = []
+    drift = 0
+    for r in res:
+        if r.get("error"):
+            raise MachineryError("breakcycles_replay failed: %s" % r)
+        for o in r["results"]:
+            ctx.evaluations += 1
+            c = cases[o["id"]]
+            if o.get("error"):
+                ctx.violation({"clause": "crash", "level": "break_cycles-direct", "error": o["error"].split(":")[0]},
+                              "break_cycles on source graph %s with labelled nodes %s raised %s" % (
+                                  json.dumps(c["src"]), json.dumps(c["queries"]), o["error"]), {"bc": {k: c[k] for k in ("src", "queries")}})
+                continue
+            if o["srcdump"] != [dict(n, det=0) for n in c["src"]]:
+                raise MachineryError("source graph was not stored literally: %s vs %s" % (o["srcdump"], c["src"]))
+            real = {"id": o["id"], "src": c["src"], "queries": c["queries"], "results": o["results"], "nodes": _strip(o["nodes"])}
+            if "model" in c:
+                m = c["model"]
+                if m["results"] == o["results"] and _strip(m["nodes"]) == real["nodes"]:
+                    continue          # the real run IS the verified model behaviour
+                drift += 1
+            judge.append(real)
+    for c in judge:
+        for n in c["src"] + c["nodes"]:
+            n.setdefault("det", 0)
+    J = tlc.judge_batch("JudgeBreakCycles", judge, nproc=ctx.nproc, tag="c09bc")
+    for c in judge:
+        j = J[c["id"]]
+        if not j["same"] and c["id"] >= nexp:
+            drift += 1
+        for k, cl in (("acyclic", "dagAcyclic"), ("meaning", "dagMeaning")):
+            if not j[k]:
+                ctx.violation({"clause": cl, "level": "break_cycles-direct"},
+                              "%s is false: break_cycles on source graph %s with labelled nodes %s registered keys %s in target %s" % (
+                                  cl, json.dumps(_strip(c["src"])), json.dumps(c["queries"]), c["results"], json.dumps(_strip(c["nodes"]))),
+                              {"bc": {"src": _strip(c["src"]), "queries": c["queries"]}})
+    if drift:
+        print("DRIFT property=C09 %d of %d runs of the real break_cycles differ from BreakCycles.tla (each judged by Layer A)" % (drift, len(cases)))
+    cov.update({"model_behaviours_replayed": nexp, "random_graphs_validated": len(cases) - nexp, "model_drift": drift})
+
+
 def run(ctx):
     run_both(ctx, "C09")
 
@@ -120,6 +240,23 @@ def replay(ctx, path):
         d = json.load(f)
     case = d["case"]
     which = ctx.pid
+    if "bc" in case:
+        c = dict(case["bc"], id=0)
+        o = pl.run_local("breakcycles_replay", cases=[c])["results"][0]
+        print(json.dumps(c), "\n->", json.dumps(o))
+        ctx.evaluations = 1
+        if o.get("error"):
+            ctx.violation({"clause": "crash", "level": "break_cycles-direct", "error": o["error"].split(":")[0]}, o["error"], case)
+        else:
+            real = {"id": 0, "src": [dict(n, det=0) for n in c["src"]], "queries": c["queries"], "results": o["results"],
+                    "nodes": [dict(n, det=0) for n in _strip(o["nodes"])]}
+            j = tlc.judge_batch("JudgeBreakCycles", [real], nproc=1)[0]
+            print(j)
+            for k, cl in (("acyclic", "dagAcyclic"), ("meaning", "dagMeaning")):
+                if not j[k]:
+                    ctx.violation({"clause": cl, "level": "break_cycles-direct"}, "%s false" % cl, case)
+        ctx.write_evidence("translation_validation", {"evaluations": 1, "distinct_nontrivial": 0, "samples": [case]})
+        return
     r = pl.run_local("pipeline_dump", text=case["text"], with_nnf=(which == "C10"))
     ctx.evaluations = 1
     print(case["text"])
